@@ -78,9 +78,9 @@ def enc(c):
 def dec(d):
     out = {}
     for k, v in d.items():
-        if k in ("field", "weights", "internal", "samp", "coal", "grid", "thetas"):
+        if k in ("field", "weights", "internal", "samp", "coal", "grid", "thetas", "beta"):
             out[k] = [F(x) for x in v]
-        elif k == "theta_rows":
+        elif k in ("theta_rows", "Z"):
             out[k] = [[F(x) for x in r] for r in v]
         elif k in ("tau", "shape", "rate", "alpha", "beta"):
             out[k] = F(v)
@@ -979,6 +979,10 @@ def replay(path: str) -> int:
         import c20_routes
 
         R.guard('smooth_fields', c20_routes.smooth_fields, R, rng, len(case["field_values"]), case["mode"], given=case)
+    elif what == "gmrf-covariate":
+        import c20_routes
+
+        R.guard('covariate_routes', c20_routes.covariate_routes, R, rng, len(case["Z"]), len(case["Z"][0]), given=case)
     elif what == "real-tree":
         import c20_routes
 
